@@ -17,6 +17,13 @@ From Coq Require Import List Arith Bool.
 From GoPdf.Base Require Import Res.
 Import ListNotations.
 
+(* what the theorems assume of the key type: [eqb] decides equality and [ltb] is a strict total order *)
+Definition key_order {K : Type} (ltb eqb : K -> K -> bool) : Prop :=
+  (forall a b, eqb a b = true <-> a = b) /\
+  (forall a, ltb a a = false) /\
+  (forall a b c, ltb a b = true -> ltb b c = true -> ltb a c = true) /\
+  (forall a b, ltb a b = false -> ltb b a = false -> a = b).
+
 Section KeyTree.
 Context {K V : Type}.
 Variable ltb : K -> K -> bool.   (* Go: a < b *)
@@ -277,6 +284,20 @@ Inductive sub_valid : node -> Prop :=
 | sv_inner lo hi kids :
     limits_of (flat_map flat kids) = Some (lo, hi) -> length kids <= F ->
     Forall sub_valid kids -> sub_valid (Inner (Some (lo, hi)) kids).
+
+(* all nodes strictly below t *)
+Fixpoint descendants (t : node) : list node :=
+  match t with
+  | Leaf _ _ => []
+  | Inner _ kids => flat_map (fun c => c :: descendants c) kids
+  end.
+
+(* reading what Write returned: the null reference gives a nil tree, on which
+   Lookup reports "not found" and All yields nothing *)
+Definition lookup_written (r : res (option node)) (k : K) : res (option V) :=
+  match r with Ok (Some t) => lookup t k | Ok None => Ok None | Err c => Err c end.
+Definition all_written (r : res (option node)) : res (list (K * V)) :=
+  match r with Ok (Some t) => Ok (all t) | Ok None => Ok [] | Err c => Err c end.
 
 Definition tree_valid (t : node) : Prop :=
   node_lim t = None /\ fan t <= F /\
